@@ -12,7 +12,13 @@ import (
 
 func TestMain(m *testing.M) {
 	loadKnown()
-	os.Exit(m.Run())
+	code := m.Run()
+	for _, f := range []string{bystanderFiles.xml, bystanderFiles.json} {
+		if f != "" {
+			os.Remove(f)
+		}
+	}
+	os.Exit(code)
 }
 
 // TestReplay re-runs saved cases through the plain check function, bypassing rapid.
